@@ -40,12 +40,19 @@ def build_rows(market):
         dec = market.get('decimals', 4)
         rows = []
         days = list(bdays(start, last))
+        hol = set(market.get('holidays', []))
+        if market.get('shift', {}).get(sym):
+            days = days[market['shift'][sym]:]          # this file starts later ...
+        elif market.get('shift'):
+            days = days[:len(days) - max(market['shift'].values())]     # ... the others end earlier: equal row counts
         for j, d in enumerate(days):
             o = price * (1 + rng.gauss(0, 0.012))
             c = o * (1 + rng.gauss(0.0003, 0.015))
             price = c
             if j > 0 and rng.random() < market.get('missing_p', 0.0):
                 continue        # a missing day (the first day of every file is always present)
+            if j > 0 and d.isoformat() in hol:
+                continue        # a market holiday: no file has a bar
             o, c = round(max(o, 0.05), dec), round(max(c, 0.05), dec)
             a = round(c * ratio, dec + 2)
             if market.get('adj_round') is not None:
